@@ -784,7 +784,8 @@ class PendingAugAssign(PendingNode[AugAssign]):
                 )
             )
 
-            slice_expr = target.slice
+            # rewrite the names first: the call to slice() built below is not user code
+            slice_expr = expr_transf(self.nsp, target.slice)
             if isinstance(slice_expr, Slice):
                 slice_expr = utils.convert_slice(slice_expr)
 
@@ -792,7 +793,7 @@ class PendingAugAssign(PendingNode[AugAssign]):
             return_list.append(
                 NamedExpr(
                     target=tmp_slice_name,
-                    value=expr_transf(self.nsp, slice_expr),
+                    value=slice_expr,
                 )
             )
 
